@@ -36,6 +36,15 @@ MUTANTS = [
     ('tensordot-last-last-no-rank-transposition', F, "                for i in range(first_idx_self, len(tdot.cores)):  # they need to be rank-transposed\n                    tdot.cores[i] = np.transpose(tdot.cores[i], [3, 1, 2, 0])", "                for i in range(first_idx_self, len(tdot.cores)):  # they need to be rank-transposed\n                    tdot.cores[i] = np.transpose(tdot.cores[i], [0, 1, 2, 3])", 'TT.tensordot', ''),
     ('tensordot-first-last-wrong-slice', F, '                tdot.cores = other_cores[:first_idx_other] + tdot.cores', '                tdot.cores = other_cores[:first_idx_other - 1] + tdot.cores', 'TT.tensordot', ''),
     ('rank_tensordot-no-copy', F, '        if overwrite is False:\n            tdot = self.copy()\n        else:\n            tdot = self\n\n        if mode == \'last\':', '        tdot = self\n\n        if mode == \'last\':', 'TT.rank_tensordot', 'frame'),
+    ('euler-identity-hoisted (harmless)', 'scikit_tt/solvers/ode.py', "    for i in range(len(step_sizes)):\n        # compute next time step\n        tt_tmp = (tt.eye(operator.row_dims) + step_sizes[i] * operator).dot(solution[i])", "    identity = tt.eye(operator.row_dims)\n    for i in range(len(step_sizes)):\n        # compute next time step\n        tt_tmp = (identity + step_sizes[i] * operator).dot(solution[i])", 'fn:explicit_euler', None),
+    ('sle-conj-spelled-conjugate (harmless)', 'scikit_tt/solvers/sle.py', "np.conj(solution.cores[i - 1][:, :, 0, :]), axes=([0, 2], [0, 1]))", "np.conjugate(solution.cores[i - 1][:, :, 0, :]), axes=([0, 2], [0, 1]))", 'fn:__construct_stack_left_op', None),
+    ('stage-einsum-as-tensordot (harmless)', 'scikit_tt/solvers/ode.py', "tmp_vec = np.einsum('ijk, lj -> ilk', tmp_vec, K[i])", "tmp_vec = np.tensordot(tmp_vec, K[i], axes=(1, 1)).transpose([0, 2, 1])", 'fn:__splitting_stage', None),
+    ('sle-left-rhs-missing-conj', 'scikit_tt/solvers/sle.py', "np.conj(solution.cores[i - 1][:, :, 0, :]), axes=([0, 1], [0, 1]))", "solution.cores[i - 1][:, :, 0, :], axes=([0, 1], [0, 1]))", 'fn:__construct_stack_left_rhs', 'sesquilinear-structure'),
+    ('evp-left-stack-conj-on-ket-side', 'scikit_tt/solvers/evp.py', "stacks.op_left[i] = np.tensordot(stacks.op_left[i - 1], trains.solution.cores[i - 1][:, :, 0, :], axes=(0, 0))", "stacks.op_left[i] = np.tensordot(stacks.op_left[i - 1], np.conjugate(trains.solution.cores[i - 1][:, :, 0, :]), axes=(0, 0))", 'fn:__construct_left_stacks', 'sesquilinear-structure'),
+    ('power-method-plain-transpose', 'scikit_tt/solvers/evp.py', "eigenvalue = (eigentensor.transpose(conjugate=True).dot(operator).dot(eigentensor))", "eigenvalue = (eigentensor.transpose().dot(operator).dot(eigentensor))", 'fn:power_method', 'sesquilinear-inner-product'),
+    ('init-array-cap-only-without-threshold', 'scikit_tt/tensor_train.py', "                    if max_rank != np.inf:\n                        u = u[:, :np.minimum(u.shape[1], max_rank)]\n                        s = s[:np.minimum(s.shape[0], max_rank)]\n                        v = v[:np.minimum(v.shape[0], max_rank), :]\n\n                    # define new TT core", "                    elif max_rank != np.inf:\n                        u = u[:, :np.minimum(u.shape[1], max_rank)]\n                        s = s[:np.minimum(s.shape[0], max_rank)]\n                        v = v[:np.minimum(v.shape[0], max_rank), :]\n\n                    # define new TT core", 'TT.__init__(array)', 'ranks'),
+    ('hod-previous-value-not-copied', 'scikit_tt/solvers/ode.py', "solution_prev = previous_value.copy()", "solution_prev = previous_value", 'fn:hod', 'frame'),
+    ('strang-works-on-stored-state', 'scikit_tt/solvers/ode.py', "    K = __splitting_propagators(S, L, I, M, order, step_size, [0.5, 1])\n\n    # begin splitting\n    # ---------------\n\n    for i in range(number_of_steps):\n\n        # copy previous solution for next step\n        tmp = solution[i].copy()", "    K = __splitting_propagators(S, L, I, M, order, step_size, [0.5, 1])\n\n    # begin splitting\n    # ---------------\n\n    for i in range(number_of_steps):\n\n        # copy previous solution for next step\n        tmp = solution[i]", 'fn:strang_splitting', 'frozen-state'),
 ]
 
 
@@ -62,7 +71,7 @@ def main():
             code = ("import json,sys\nfrom vt.e1.registry import all_contracts\nfrom vt.e1.contract import verify_function\nreg=all_contracts()\nc=reg[%r]\nout=[]\n"
                     "for inst in c.instances():\n    r=verify_function(c,inst,reg)\n    out.append({'inst':r['inst'],'unsupported':r.get('unsupported'),'bad':[(o['name'],o['status']) for o in r['obligations'] if o['status']!='ok']})\nprint(json.dumps(out))" % contract)
             env = dict(os.environ, VERIF_REPO=tmp, PYTHONPATH=here, PYTHONWARNINGS='ignore')
-            r = subprocess.run([py, '-c', code], capture_output=True, text=True, env=env, timeout=900)
+            r = subprocess.run([py, '-c', code], capture_output=True, text=True, env=env, timeout=2400)
             try:
                 res = json.loads(r.stdout.strip().splitlines()[-1])
             except Exception:
